@@ -103,7 +103,7 @@ impl Report {
             return;
         }
         self.violation_sigs.insert(sig.clone());
-        let detail = detail.set("process_first_format", self.process_first_format);
+        let detail = detail.set("process_first_format", self.process_first_format).set("harness_build", if cfg!(debug_assertions) { "checked" } else { "plain" });
         self.violations.push(Violation { sig, what, detail });
     }
     pub fn note(&mut self, k: &str, v: impl Into<J>) {
